@@ -75,49 +75,95 @@ func checkPairValue(c *fw.Ctx, fn *ssa.Function, st *ssa.Store, side, v string) 
 func plCoverage(c *fw.Ctx, fn *ssa.Function) (scalars map[string]string, maps map[string]string) {
 	scalars, maps = map[string]string{}, map[string]string{}
 	oldS, newS := map[string]string{}, map[string]string{} // container sig -> field
-	for _, b := range fn.Blocks {
-		for _, ins := range b.Instrs {
-			switch x := ins.(type) {
-			case *ssa.Store:
-				fa, ok := x.Addr.(*ssa.FieldAddr)
-				if !ok {
-					continue
-				}
-				st := derefStructOf(fa.X.Type())
-				if st == nil || st.NumFields() < 2 {
-					continue
-				}
-				side := st.Field(fa.Field).Name()
-				if side != "old" && side != "new" {
-					continue
-				}
-				v := fw.Sig(x.Val)
-				cont := fw.Sig(fa.X)
-				checkPairValue(c, fn, x, side, v)
-				pfx := "*&param:" + side + "PowerLevels."
-				if strings.HasPrefix(v, pfx) {
-					f := strings.TrimPrefix(v, pfx)
-					if ok, why := loopOnly(b); !ok {
-						c.Fail("1 coverage", fw.FuncName(fn)+": comparison of "+f+" is unconditional", c.P.Pos(fw.InstrPos(x)), "the old/new pair for "+f+" is only formed when "+why)
+	sideOf := func(v string) (side, field string) {
+		for _, sd := range []string{"old", "new"} {
+			pfx := "*&param:" + sd + "PowerLevels."
+			if strings.HasPrefix(v, pfx) && !strings.ContainsAny(strings.TrimPrefix(v, pfx), "[(") {
+				return sd, strings.TrimPrefix(v, pfx)
+			}
+		}
+		return "", ""
+	}
+	for _, f := range fw.FamilyOf(fn) {
+		for _, b := range f.Blocks {
+			for _, ins := range b.Instrs {
+				switch x := ins.(type) {
+				case *ssa.Store:
+					// a level stored into a small aggregate (levelPair{old,new}, [2]int64{...}): the
+					// aggregate pairs the old and the new value of one field
+					var cont ssa.Value
+					switch ad := x.Addr.(type) {
+					case *ssa.FieldAddr:
+						cont = ad.X
+						if st := derefStructOf(ad.X.Type()); st != nil && st.NumFields() >= 2 {
+							if side := st.Field(ad.Field).Name(); side == "old" || side == "new" {
+								checkPairValue(c, fn, x, side, fw.Sig(x.Val))
+							}
+						}
+					case *ssa.IndexAddr:
+						cont = ad.X
+					default:
 						continue
 					}
-					if side == "old" {
-						oldS[cont] = f
-					} else {
-						newS[cont] = f
+					v := fw.Sig(x.Val)
+					side, fld := sideOf(v)
+					if side == "" {
+						continue
 					}
-				}
-			case *ssa.Range:
-				s := fw.Sig(x.X)
-				for _, side := range []string{"old", "new"} {
-					pfx := "*&param:" + side + "PowerLevels."
-					if strings.HasPrefix(s, pfx) {
-						f := strings.TrimPrefix(s, pfx)
-						if ok, why := loopOnly(b); !ok {
-							c.Fail("1 coverage", fmt.Sprintf("%s: the %s %s entries are always visited", fw.FuncName(fn), side, f), c.P.Pos(fw.InstrPos(x)), fmt.Sprintf("the pass over the %s %s map only runs when %s: entries that were removed (or added) escape the comparison", side, f, why))
+					if _, isInt := x.Val.Type().Underlying().(*types.Basic); !isInt {
+						continue // a map or struct put into a list, not a level
+					}
+					if ok, why := loopOnly(b); !ok {
+						c.Fail("1 coverage", fw.FuncName(fn)+": comparison of "+fld+" is unconditional", c.P.Pos(fw.InstrPos(x)), "the old/new pair for "+fld+" is only formed when "+why)
+						continue
+					}
+					cs := fw.Sig(cont)
+					if side == "old" {
+						oldS[cs] = fld
+					} else {
+						newS[cs] = fld
+					}
+				case ssa.CallInstruction:
+					// old.F and new.F handed to one call (a comparison helper or closure)
+					args := x.Common().Args
+					for i := 0; i+1 < len(args); i++ {
+						s1, f1 := sideOf(fw.Sig(args[i]))
+						s2, f2 := sideOf(fw.Sig(args[i+1]))
+						if s1 == "old" && s2 == "new" {
+							if ok, _ := loopOnly(b); ok {
+								key := fmt.Sprintf("call@%p#%d", x, i)
+								oldS[key], newS[key] = f1, f2
+							}
+						}
+					}
+				case *ssa.Range:
+					// a pass over one side's map, or over a literal list holding both sides' maps
+					cands := []string{fw.Sig(x.X)}
+					if u, isU := x.X.(*ssa.UnOp); isU {
+						if ia, isIA := u.X.(*ssa.IndexAddr); isIA {
+							if al, isAl := ia.X.(*ssa.Alloc); isAl {
+								for _, ref := range *al.Referrers() {
+									if ia2, ok := ref.(*ssa.IndexAddr); ok {
+										for _, r2 := range *ia2.Referrers() {
+											if st, ok := r2.(*ssa.Store); ok && st.Addr == ssa.Value(ia2) {
+												cands = append(cands, fw.Sig(st.Val))
+											}
+										}
+									}
+								}
+							}
+						}
+					}
+					for _, s := range cands {
+						side, fld := sideOf(s)
+						if side == "" {
 							continue
 						}
-						maps[f] += side + ";"
+						if ok, why := loopOnly(b); !ok && len(cands) == 1 {
+							c.Fail("1 coverage", fmt.Sprintf("%s: the %s %s entries are always visited", fw.FuncName(fn), side, fld), c.P.Pos(fw.InstrPos(x)), fmt.Sprintf("the pass over the %s %s map only runs when %s: entries that were removed (or added) escape the comparison", side, fld, why))
+							continue
+						}
+						maps[fld] += side + ";"
 					}
 				}
 			}
@@ -126,7 +172,7 @@ func plCoverage(c *fw.Ctx, fn *ssa.Function) (scalars map[string]string, maps ma
 	for cont, f := range oldS {
 		if newS[cont] == f {
 			scalars[f] = "paired"
-		} else {
+		} else if newS[cont] != "" {
 			c.Fail("1 coverage", fw.FuncName(fn)+": "+f+" is compared with its own new value", c.P.Pos(fn.Pos()), fmt.Sprintf("old %s is paired with new %s", f, newS[cont]))
 		}
 	}
@@ -218,15 +264,26 @@ func checkC08(c *fw.Ctx) {
 					c.Ok("1 coverage", construct, "", "not required before room version 6")
 					continue
 				}
-				c.Check(strings.Contains(sides, "old;") && strings.Contains(sides, "new;"), "1 coverage", construct, c.P.Pos(f.Pos()), sides, fmt.Sprintf("map %s: passes found over [%s]; both the old and the new entries must be visited (additions, changes and removals)", name, sides))
+				if sides == "" {
+					c.Undecided("1 coverage", construct, "no pass over the "+name+" maps was recognised")
+				} else {
+					c.Check(strings.Contains(sides, "old;") && strings.Contains(sides, "new;"), "1 coverage", construct, c.P.Pos(f.Pos()), sides, fmt.Sprintf("map %s: passes found over [%s]; both the old and the new entries must be visited (additions, changes and removals)", name, sides))
+				}
 			} else {
 				found := false
+				anyPaired := 0
 				for _, fn := range fns {
 					if cov[fn][0][name] == "paired" {
 						found = true
 					}
+					anyPaired += len(cov[fn][0])
 				}
-				c.Check(found, "1 coverage", construct, c.P.Pos(f.Pos()), "", fmt.Sprintf("level %s is never compared between the current and the proposed power levels: a sender can raise it above their own level", name))
+				if !found && anyPaired == 0 {
+					// no old/new pairing was recognised at all: the comparison idiom changed
+					c.Undecided("1 coverage", construct, "no old/new pairs were recognised in "+strings.Join(fns, ", "))
+				} else {
+					c.Check(found, "1 coverage", construct, c.P.Pos(f.Pos()), "", fmt.Sprintf("level %s is never compared between the current and the proposed power levels: a sender can raise it above their own level", name))
+				}
 			}
 		}
 	}
@@ -415,6 +472,9 @@ func checkV3AndParsers(c *fw.Ctx, t *versionTable) {
 			"(encoding/json.Unmarshal((gmsl.PDU).Content(param:createEvent),local:*gmsl.CreateContent) == nil)": "decodes",
 			"next(range(*&param:newPowerLevels.Users))#0":                                                       "more",
 			creators: "isCreator",
+		}, free: func(atom string) bool {
+			// the rule does not depend on the current levels: any test of them is an independent input
+			return strings.Contains(atom, "param:oldPowerLevels.")
 		}}
 		compareTable(c, rule, "v12: no entry of the proposed users map may name a creator", v3, fw.ErrIndex(v3), vars, ip, func(a asg) string {
 			switch {
@@ -436,7 +496,7 @@ func checkV3AndParsers(c *fw.Ctx, t *versionTable) {
 				}
 			}
 		}
-		c.Check(ok, rule, "v12: the creator list starts with the create event's sender", c.P.Pos(v3.Pos()), "", "the create event's sender is not part of the creator list")
+		c.Expect(ok, rule, "v12: the creator list starts with the create event's sender", c.P.Pos(v3.Pos()), "", "no store of the create event's sender into the creator list was recognised")
 	}
 	// integer-only parser: a plain json.Unmarshal into the int64 fields
 	if p := fnByShortName(c.P, t.cell("10", "parsePowerLevelsFunc")); p != nil {
